@@ -1,4 +1,8 @@
-"""C04 — session machine check (see harness/sess_checks.py, Model/Session.lean, Props/C04.lean)."""
+"""C04 — session machine check (see harness/sess_checks.py, Model/Session.lean, Props/C04.lean), plus
+receive backlogs of 100 KiB and more (harness/c04_burst.py) and application sessions over rich message schemas (harness/app_schema.py)."""
+import json
+import time
+
 import sess_checks
 
 DRIVER = 'drv_C05'
@@ -6,8 +10,27 @@ LEAN_TARGETS = ['NasdaqModel.Props.C04', 'drv_C05']
 
 
 def run(ctx):
+    t0 = time.time()
     sess_checks.run_family(ctx, 'C04')
+    import app_schema
+    import c04_burst
+    t1 = time.time()
+    app_schema.run(ctx, 'C04')
+    t2 = time.time()
+    c04_burst.run(ctx)
+    ctx.cov['wall_s_parts'] = {'session-family': round(t1 - t0, 2), 'rich-schema': round(t2 - t1, 2), 'bursts': round(time.time() - t2, 2)}
+    ctx.cov['rule'] += ('; application-session scenarios also over a rich message schema (arrays of scalars / of records, embedded, nested and '
+                        'optional records, empty and non-empty); receive backlogs of 100 - 400 KiB per consumer kind (oracle only)')
 
 
 def replay(ctx, path):
-    sess_checks.replay_family(ctx, 'C04', path)
+    r = json.load(open(path))
+    rep = r.get('replay') or (r.get('no_longer_checks') or [{}])[-1].get('case') or r
+    if 'burst_scenario' in rep:
+        import c04_burst
+        c04_burst.replay(ctx, rep)
+    elif 'app_schema' in rep:
+        import app_schema
+        app_schema.replay(ctx, 'C04', rep)
+    else:
+        sess_checks.replay_family(ctx, 'C04', path)
